@@ -12,7 +12,8 @@ RULE = ('version-2 and version-3 dumps whose event ids are concentrated on a poo
         'absent, 0}, class and subclass filters as lists or tuples (empty, singletons, overlapping, absent values, '
         'duplicates); for logs filter_tid and filter_process in {None, a process name, str(pid), absent}. Oracle: '
         'filtered listing == plain-loop filter (predicate written from the statement) of the unfiltered listing, as '
-        'lists; no log in the event listing, no event in the log listing. Non-trivial: the filter keeps at least one '
+        'lists; no log in the event listing, no event in the log listing (also for version-2 dumps, whose log listing is '
+        'empty); the event listing is also taken after a consumed traces request on the same object. Non-trivial: the filter keeps at least one '
         'and drops at least one element; distinct by (file, config).')
 ASSUMPTIONS = ['predicate: tid equal; and, when either list is non-empty, class (id >> 24) in classes or subclass '
                '(id >> 16) in subclasses']
